@@ -144,6 +144,72 @@ class TaskResult:
                                         'choices': choices})
 
 
+_FUZZ_OK = None
+
+
+def fuzz_available():
+    global _FUZZ_OK
+    if _FUZZ_OK is None:
+        try:
+            import atheris  # noqa: F401
+            _FUZZ_OK = True
+        except Exception:  # noqa
+            _FUZZ_OK = False
+    return _FUZZ_OK
+
+
+def run_fuzz_part(pid, sc, shard, seed_value, res):
+    """coverage-guided part: the sub-check as an atheris / libFuzzer target in
+    a process of its own (pbv.fuzz); its statistics and a possible violation are
+    merged into the result of this task"""
+    import shutil
+    import subprocess
+    import tempfile
+    os.makedirs(os.path.join(ROOT, '.work'), exist_ok=True)
+    out = tempfile.mkdtemp(prefix=f'pbv_fuzz_{pid}_', dir=os.path.join(ROOT, '.work'))
+    try:
+        repo = os.environ.get('VERIF_REPO', '/repo')
+        env = dict(os.environ, PYTHONPATH=os.pathsep.join(
+            [repo, ROOT, os.path.join(ROOT, '.deps')]))
+        cmd = [sys.executable, '-m', 'pbv.fuzz', pid, sc.name, '--runs', str(sc.fuzz),
+               '--seed', str(seed_value % (2 ** 31 - 1) + 1), '--out', out]
+        try:
+            r = subprocess.run(cmd, cwd=ROOT, env=env, stdout=subprocess.DEVNULL,
+                               stderr=subprocess.DEVNULL, timeout=1500)
+            rc = r.returncode
+        except subprocess.TimeoutExpired:
+            rc = 'timeout'
+        stats_file = os.path.join(out, 'stats.json')
+        if not os.path.exists(stats_file):
+            if rc != 'timeout':
+                res.harness_errors.append({'sub': sc.name, 'choices': None,
+                                           'trace': f'fuzz part: no statistics (exit {rc})'})
+            return
+        st_ = json.load(open(stats_file))
+        res.evaluations += st_['executions']
+        for k_, v_ in st_['outcomes'].items():
+            res.outcomes[k_ if k_ != 'known' else 'violation'] += v_
+        res.nontrivial |= {bytes.fromhex(h) for h in st_['nontrivial']}
+        res.labels['fuzz-executions'] += st_['executions']
+        if st_.get('harness_errors'):
+            res.harness_errors.append({'sub': sc.name, 'choices': None,
+                                       'trace': 'fuzz part: ' + st_['harness_errors'][0]})
+        v_ = st_.get('violation')
+        if v_:
+            # re-execute through the ordinary path so that the violation is
+            # accounted (and later shrunk / replayed) like any other
+            d = ReplayDraw(v_['choices'])
+            outcome, ctx, info = execute(sc, d)
+            res.account(sc, outcome, ctx, info, d.choices, False)
+            if outcome != 'violation':
+                res.harness_errors.append({
+                    'sub': sc.name, 'choices': v_['choices'],
+                    'trace': 'fuzz part: violation ' + v_['signature'] +
+                             ' did not reproduce from its choice list'})
+    finally:
+        shutil.rmtree(out, ignore_errors=True)
+
+
 def run_task(task):
     """Worker entry: one (sub-check, shard)."""
     pid, sub_name, shard, n_shards, n_examples, seed_value, tier = task
@@ -184,6 +250,10 @@ def run_task(task):
                     'steps': json.loads(json.dumps(v_['steps'], default=str)),
                     'trainer_kwargs': v_['trainer_kwargs'],
                 }
+        if tier == 'thorough' and getattr(sc, 'fuzz', 0) and fuzz_available():
+            run_fuzz_part(pid, sc, shard, seed_value, res)
+        if n_examples > 0 and getattr(sc, 'machine', None) is not None:
+            pass
         elif n_examples > 0:
             import hypothesis
             from hypothesis import HealthCheck, Phase, given, settings
